@@ -45,7 +45,11 @@ RULE = (
     "simulator's PeerAborted on ranks whose collective a diagnosing rank left;"
     " if nothing is raised the partition is executed under the simulated MPI "
     "and the deadlock / wrong delivery is reported.  Well-formed: nothing "
-    "raised.  non-trivial = the faulted message has a dependent or a "
+    "raised.  Also, on the partition of every valid program: every single "
+    "table fault (one send entry duplicated, one send entry removed) at "
+    "every send entry of every part of every rank; "
+    "verify_distributed_partition must raise a documented diagnostic on "
+    "some rank.  non-trivial = the faulted message has a dependent or a "
     "prerequisite message; distinct by (program, fault list)")
 ASSUMPTIONS = [
     "each rank's graph is deduplicated first (see C08)",
@@ -503,6 +507,105 @@ def _related(base) -> set[tuple]:
     return {(ms[k]["src"], ms[k]["dst"], json.dumps(ms[k]["tag"])) for k in rel}
 
 
+# {{{ faults injected into the partition of a valid program
+
+PART_FAULTS = ("dup-send-entry", "drop-send-entry")
+
+
+def part_fault_sites(partitions) -> list[dict]:
+    sites = []
+    for r, partition in enumerate(partitions):
+        for pid in sorted(partition.parts):
+            part = partition.parts[pid]
+            for name in sorted(part.name_to_send_nodes):
+                for k in range(len(part.name_to_send_nodes[name])):
+                    sites.append({"rank": r, "pid": pid, "name": name, "k": k,
+                                  "kind": "dup-send-entry"})
+                    sites.append({"rank": r, "pid": pid, "name": name, "k": k,
+                                  "kind": "drop-send-entry"})
+            # (removing a receive entry leaves the part reading a name that
+            # nothing provides: verify's internal consistency assertion fires
+            # first - structurally broken rather than mis-communicating, so
+            # not injected)
+    return sites
+
+
+def tamper(partitions, flt):
+    """a copy of *partitions* with one entry of one part's communication
+    tables duplicated or removed (what a defective partitioner could
+    return): the same (source, destination, tag) posted twice / a message
+    with one end only."""
+    import dataclasses
+    partition = partitions[flt["rank"]]
+    part = partition.parts[flt["pid"]]
+    if flt["kind"] == "drop-recv-entry":
+        recvs = {k: v for k, v in part.name_to_recv_node.items()
+                 if k != flt["name"]}
+        new_part = dataclasses.replace(part, name_to_recv_node=recvs)
+    else:
+        sends = {k: list(v) for k, v in part.name_to_send_nodes.items()}
+        lst = sends[flt["name"]]
+        if flt["kind"] == "dup-send-entry":
+            lst.insert(flt["k"], lst[flt["k"]])
+        else:
+            del lst[flt["k"]]
+            if not lst:
+                del sends[flt["name"]]
+        new_part = dataclasses.replace(part, name_to_send_nodes=sends)
+    parts = dict(partition.parts)
+    parts[flt["pid"]] = new_part
+    out = list(partitions)
+    out[flt["rank"]] = dataclasses.replace(partition, parts=parts)
+    return out
+
+
+def partition_faults(base, res) -> list[tuple[Failure, dict]]:
+    """every single table fault at every send / receive entry of the
+    partition of a valid program: verify_distributed_partition must raise a
+    documented diagnostic on some rank."""
+    distsim.install()
+    fails = []
+    with warnings.catch_warnings():
+        warnings.simplefilter("ignore")
+        try:
+            builds = distgen.build_case(base)
+            po = distsim.partition_all(builds, do_verify=True, do_number=False)
+        except HarnessError:
+            raise
+        except Exception:  # noqa: BLE001
+            return fails
+        if not po.all_done():
+            return fails
+        partitions = [r.partition for r in po.ranks]
+        for flt in part_fault_sites(partitions):
+            try:
+                bad = tamper(partitions, flt)
+            except Exception as e:  # noqa: BLE001
+                raise HarnessError(f"cannot tamper: {e}") from e
+            sim = distsim.verify_all(bad)
+            res.evaluations += 1
+            res.count("partition_fault:" + flt["kind"])
+            names = [type(e).__name__ for e in sim.excs if e is not None]
+            for nm in names:
+                res.count("partition_fault_raised:" + nm)
+            if not any(n in DOCUMENTED for n in names):
+                fails.append((Failure(
+                    "tampered-partition-verified",
+                    f"{flt['kind']} at rank {flt['rank']} part {flt['pid']} "
+                    f"entry {flt['name']}[{flt['k']}]: "
+                    "verify_distributed_partition raised "
+                    f"{names or 'nothing'} on all ranks", flt["kind"]),
+                    {"base": base, "faults": [], "partition_fault": flt}))
+            elif any(n not in DOCUMENTED and n != "PeerAborted" for n in names):
+                fails.append((Failure(
+                    "tampered-partition-undocumented-diagnostic",
+                    f"{flt['kind']}: {names}", flt["kind"]),
+                    {"base": base, "faults": [], "partition_fault": flt}))
+    return fails
+
+# }}}
+
+
 def run_shard(shard: int, nshards: int, seed: int, tier: str) -> ShardResult:
     pl = plan(tier)
     res = ShardResult()
@@ -549,6 +652,8 @@ def run_shard(shard: int, nshards: int, seed: int, tier: str) -> ShardResult:
             one({"base": base, "faults": [flt]}, rel)
         for pair in fault_pairs(base, singles, rng, pl["pairs"]):
             one({"base": base, "faults": pair}, rel)
+        for f, c in partition_faults(base, res):
+            res.fail(f, c)
 
     hyp_run(distgen.cases(distgen.DistCfg(min_ranks=2)), body, seed,
             pl["examples"])
@@ -560,6 +665,13 @@ def run_shard(shard: int, nshards: int, seed: int, tier: str) -> ShardResult:
 
 
 def replay(c10case) -> Failure | None:
+    if "partition_fault" in c10case:
+        res = ShardResult()
+        want = c10case["partition_fault"]
+        for f, c in partition_faults(c10case["base"], res):
+            if c["partition_fault"] == want:
+                return f
+        return None
     f, _ = case_oracle(c10case, exec_leaves=200)
     return f
 
